@@ -25,6 +25,7 @@ type c22Gen struct {
 	errRate int  // per-mille probability of an injected error event per op
 	nOps    int  // total ops so far
 	big     bool // program may use the 2^16 boundaries
+	inLP8   int
 }
 
 func c22Fill(n int, seed byte) []byte {
@@ -76,6 +77,9 @@ func (g *c22Gen) ops(depth int, inCont bool, tail *int) []*rc.Op {
 	for i := 0; i < n && g.nOps < 120; i++ {
 		g.nOps++
 		r := uni(g.rt, "op", 1000)
+		if depth == 0 && r >= g.errRate && r < 300 {
+			r += 700 // top level: more children, fewer plain integers
+		}
 		if g.errRate > 0 && r < g.errRate {
 			switch k := uni(g.rt, "errKind", 4); {
 			case k == 0:
@@ -122,7 +126,7 @@ func (g *c22Gen) ops(depth int, inCont bool, tail *int) []*rc.Op {
 			switch k := uni(g.rt, "innerKind", 10); {
 			case k < 4:
 				kind = rc.OpASN1
-			case k < 6:
+			case k < 5:
 				kind = rc.OpLP8
 			case k < 8:
 				kind = rc.OpLP16
@@ -139,10 +143,16 @@ func (g *c22Gen) ops(depth int, inCont bool, tail *int) []*rc.Op {
 				}
 			}
 			ktail := 0
-			op.Body = g.ops(depth+1, true, &ktail)
+			if kind == rc.OpLP8 {
+				g.inLP8++ // keep what is nested in an 8-bit child small: its own padding decides overflow
+				op.Body = g.ops(max(depth+1, 4), true, &ktail)
+				g.inLP8--
+			} else {
+				op.Body = g.ops(depth+1, true, &ktail)
+			}
 			panicked := len(op.Body) > 0 && c22EndsInPanic(op.Body)
 			// pad the content to a boundary
-			if !panicked && uni(g.rt, "pad", 100) < 55 {
+			if !panicked && uni(g.rt, "pad", 100) < 55 && (g.inLP8 == 0 || kind == rc.OpLP8) {
 				if cur, ok := rc.ContentLen(op.Body); ok {
 					t := g.target(kind)
 					if d := t - cur; d >= 0 && d <= g.budget {
